@@ -34,7 +34,8 @@ class C11(PoolCheck):
     LEVEL = 'fault_enumeration'
     GROUP = 16
     CASE_TIMEOUT = 120.0
-    FAMILIES = ('ids', 'keys', 'xsitype', 'subst', 'fixed', 'wild', 'ns', 'mixed', 'assert11', 'recur', 'big', 'idfields', 'shadow')
+    FAMILIES = ('ids', 'keys', 'xsitype', 'subst', 'fixed', 'wild', 'ns', 'mixed', 'assert11', 'recur', 'big', 'idfields', 'shadow',
+                'simple', 'grouped', 'laxbuilt')
     CORPUS = False
     RULE = ("fault cases = (family, document, stream class or file, fault kind@offset [eof, flip, eio, seekfail, "
             "close], validation mode, eager/lazy, entry point); eof and flip are enumerated at EVERY byte offset of "
@@ -280,14 +281,32 @@ class C11(PoolCheck):
         ('enc_unknown', b'encoding="UTF-8"', b'encoding="x-nope"'), ('enc_utf16', b'encoding="UTF-8"', b'encoding="UTF-16"'),
         ('enc_empty', b'encoding="UTF-8"', b'encoding=""'), ('ver11', b'version="1.0"', b'version="1.1"'),
         ('standalone', b'?>', b' standalone="maybe"?>'),
+        # values that XPath tests of type alternatives / assertions compute with
+        ('zerodiv', b'b="1"', b'b="0"'), ('hugeattr', b'a="1"', b'a="' + b'9' * 400 + b'"'), ('hugeyearattr', b'd="2020-', b'd="99999999999-'),
+        ('nanattr', b'a="1"', b'a="NaN"'),
+        # location hints that are no usable URL (followed only by the hint-following entry points)
+        ('hint_dataurl', b'>', b' xmlns:xsi="http://www.w3.org/2001/XMLSchema-instance" xsi:schemaLocation="urn:x data:,x">'),
+        ('hint_nul', b'>', b' xmlns:xsi="http://www.w3.org/2001/XMLSchema-instance" xsi:schemaLocation="urn:x file:///nonexistent/%00">'),
+        ('hint_odd', b'>', b' xmlns:xsi="http://www.w3.org/2001/XMLSchema-instance" xsi:schemaLocation="urn:x a.xsd urn:y">'),
+        ('hint_nons_nul', b'>', b' xmlns:xsi="http://www.w3.org/2001/XMLSchema-instance" xsi:noNamespaceSchemaLocation="%00 ">'),
     )
     PROLOG_MUTATIONS = ('enc_sjis', 'enc_big5', 'enc_utf32', 'enc_ebcdic', 'enc_unknown', 'enc_utf16', 'enc_empty',
                         'ver11', 'standalone')
 
-    REENCODINGS = ('utf-16', 'utf-16-le-nobom', 'utf-32', 'garbled-head', 'latin1-high')
+    REENCODINGS = ('utf-16', 'utf-16-le-nobom', 'utf-32', 'garbled-head', 'latin1-high', 'text-nul-head', 'text-surrogate-head',
+                   'text-no-lt', 'text-long-no-lt')
 
     def reencode(self, data, how):
         text = data.decode('utf-8').replace('\n', ' ')
+        # garbled TEXT sources: a str that does not start with '<' is taken for a location
+        if how == 'text-nul-head':
+            return 'x\x00' + text[:40]
+        if how == 'text-surrogate-head':
+            return '\ud800' + text[:40]
+        if how == 'text-no-lt':
+            return text[1:60]
+        if how == 'text-long-no-lt':
+            return text[1:] * 40
         if how == 'utf-16':
             return text.replace('encoding="UTF-8"', 'encoding="UTF-16"').encode('utf-16')
         if how == 'utf-16-le-nobom':
@@ -299,7 +318,9 @@ class C11(PoolCheck):
         return text.replace('encoding="UTF-8"', 'encoding="ISO-8859-1"').encode('utf-8').replace(b't', b'\xe9', 1)
 
     def gen_lexical(self, rng):
-        key = rng.choice([k for k in self.keys if not k.startswith(('recur', 'big', 'idfields', 'shadow'))])
+        cand = [k for k in self.keys if not k.startswith(('recur', 'big', 'idfields', 'shadow'))]
+        simple = [k for k in cand if k.startswith('simple/')]
+        key = rng.choice(simple) if simple and rng.random() < 0.35 else rng.choice(cand)
         e = self.entries[key]
         di = rng.randrange(len(e.docs))
         muts = []
@@ -309,12 +330,14 @@ class C11(PoolCheck):
                       if (old in data[:data.find(b'?>') + 2] if nm_ in self.PROLOG_MUTATIONS else old in body)] or [0]
         for _ in range(rng.choice([1, 1, 2])):
             m = rng.choice(applicable)            # only mutations whose pattern occurs in this document
-            muts.append([m, rng.randrange(0, max(1, min(12, body.count(self.MUTATIONS[m][1]))))])
+            muts.append([m, rng.randrange(0, max(1, min(24, body.count(self.MUTATIONS[m][1]))))])
         case = {'kind': 'lexical', 'entry': key, 'doc': di, 'muts': muts, 'api': rng.choice(APIS),
-                'lazy': rng.choice([0, 0, 1]), 'src': {'ch': 'bytes'}}
+                'lazy': rng.choice([0, 0, 1, 2]), 'src': {'ch': 'bytes'}, 'hints': rng.random() < 0.3}
         if rng.random() < 0.12:
             case['muts'] = []
             case['reencode'] = rng.choice(self.REENCODINGS)
+        # (an iterparse=limited_parser(n) dimension was tried and withdrawn: a user-selected parser function is
+        # configuration, not a document - DESIGN.md 9 records what it showed)
         return case
 
     def mutate(self, data, muts):
@@ -340,13 +363,17 @@ class C11(PoolCheck):
         return data, changed
 
     # ------------------------------------------------------------------
-    def call(self, schema, source, api, lazy, keep, defuse=None):
+    def call(self, schema, source, api, lazy, keep, defuse=None, hints=False, iterparse=None):
         """Returns canonical result; exception object kept for identity checks."""
         import xmlschema
         try:
-            if lazy or api == 'resource' or defuse:
-                source = xmlschema.XMLResource(source, lazy=(True if lazy == 1 else lazy) if lazy else False,
-                                               **({'defuse': defuse} if defuse else {}))
+            if lazy or api == 'resource' or defuse or iterparse:
+                extra = {'defuse': defuse} if defuse else {}
+                if iterparse:
+                    # the library's own event-limited parser as the resource's iterparse function
+                    from xmlschema.resources.parsers import limited_parser
+                    extra['iterparse'] = limited_parser(iterparse)
+                source = xmlschema.XMLResource(source, lazy=(True if lazy == 1 else lazy) if lazy else False, **extra)
                 keep['resource'] = source
             if api == 'resource':
                 return {'k': 'ok', 'v': source.root.tag}
@@ -354,7 +381,11 @@ class C11(PoolCheck):
                 r = xmlschema.to_json(source, schema=schema, validation='lax', lazy=bool(lazy))
                 return {'k': 'ok', 'v': ['json', bool(r[1]) if isinstance(r, tuple) else False]}
             op = {'api': api, 'lazy': lazy}
-            res = ops.call_api(schema, source, op)
+            if hints and api in ('iter_errors', 'is_valid', 'decode_lax', 'validate', 'decode'):
+                # the package-level functions follow location hints by default; here on the schema's own methods
+                res = ops.call_api(schema, source, op, {'use_location_hints': True})
+            else:
+                res = ops.call_api(schema, source, op)
             return res
         except CaseTimeout:
             raise
@@ -592,14 +623,16 @@ class C11(PoolCheck):
         if case.get('reencode'):
             data, changed = self.reencode(doc.data, case['reencode']), True
         keep = {}
-        res = jcopy(self.call(e.schema, data, case['api'], case['lazy'], keep))
+        res = jcopy(self.call(e.schema, data, case['api'], case['lazy'], keep, hints=case.get('hints'),
+                              iterparse=case.get('iterparse')))
         violations = []
-        lax = case['api'] in LAX_APIS
+        lax = case['api'] in LAX_APIS and not isinstance(data, str)
         sig = self.class_violation(res, keep, case['api'], {}, lax)
         if sig:
             sig.update(lazy=bool(case['lazy']))
             violations.append({'signature': sig, 'detail': {'case': case, 'doc': doc.name, 'result': short(res),
-                                                            'data': data.decode('utf-8', 'replace')[:600]}})
+                                                            'data': (data if isinstance(data, str) else
+                                                                     data.decode('utf-8', 'replace'))[:600]}})
         counters = {'lexical_cases': 1, 'lexical_changed': int(changed)}
         skeleton = ['lexical', e.family.name, [self.MUTATIONS[m][0] for m, _ in case['muts']] or case.get('reencode'),
                     case['api'], case['lazy'], doc.name]
